@@ -34,7 +34,7 @@ DEFAULT_PROFILE = {
     "p_sstream": 0.25, "p_cstream": 0.15, "p_bidi": 0.15, "p_lro": 0.3, "p_raw_op": 0.08,
     "p_http": 0.9, "p_signature": 0.7, "p_routing": 0.25, "p_keyword_rpc": 0.08,
     "p_service_config": 0.8, "p_yaml": 0.3, "p_reserved_field": 0.08, "p_two_services": 0.25,
-    "p_foreign_request": 0.1, "p_shuffle_numbers": 0.2, "p_additional_binding": 0.25, "p_param_name_collision": 0.0, "p_stream_of_empty": 0.06, "p_stream_routing": 0.0, "p_routing_name_clash": 0.0,
+    "p_foreign_request": 0.1, "p_shuffle_numbers": 0.2, "p_additional_binding": 0.25, "p_param_name_collision": 0.0, "p_stream_of_empty": 0.06, "p_stream_routing": 0.0, "p_routing_name_clash": 0.0, "p_required_optional": 0.0,
     "p_auto_populate": 0.0, "p_google_api_ns": 0.0, "sig_variants": False, "p_multi_var_path": 0.0, "mixin_variants": False, "p_add_iam_methods": 0.0, "p_equal_sort_keys": 0.0, "p_reserved_path_var": 0.0, "p_local_empty": 0.0, "p_same_method_two_services": 0.0, "p_required_enum": 0.0, "p_custom_http_pattern": 0.0, "p_real_api": 0.04, "p_nested_name_ties": 0.15, "p_double_star_path": 0.0, "p_value_fields": 0.0, "p_mixed_foreign_io": 0.0, "common_file_names": ["resources"],
     "transports": ["grpc", "grpc+rest", "grpc+rest", "rest"],
     "p_numeric_enums": 0.3,
@@ -508,6 +508,8 @@ def _gen_methods(cx, pkg, main, svc, noun, res, enums, msgs):
                 nm = rng.choice(pool) if pool else _fresh_name(rng, used)
                 used.add(nm)
                 fields.append({"name": nm, "number": 12, "type": t, "required": True})
+                if cx.chance("p_required_optional"):
+                    fields[-1]["optional"] = True      # REQUIRED and proto3-`optional` (a synthetic one-member oneof)
             _msg(main, f"{mname}Request", fields)
             out = rng.choice([P + "." + noun, P + "." + noun, ".google.protobuf.Empty", f"{P}.{mname}Response"])
             if cx.chance("p_local_empty"):
@@ -923,7 +925,8 @@ def gen_service_config(rng, spec, p_named=0.7):
     while named:
         k = min(len(named), rng.choice([1, 1, 2, 3]))
         grp, named = named[:k], named[k:]
-        e = {"name": [{"service": s, "method": m} for s, m in grp]}
+        # (JSON objects are unordered: a key-sorting formatter writes "method" before "service")
+        e = {"name": [({"service": s, "method": m} if rng.random() < 0.7 else {"method": m, "service": s}) for s, m in grp]}
         c = rng.random()
         if c < 0.85:
             e["timeout"] = rng.choice(["5s", "10s", "20s", "60s", "7.5s", "2.5s", "30s", "12.25s", "600s", "2.05s", "10.005s", "0.5s", "0.75s", "1s"])
